@@ -255,6 +255,8 @@ def run(ctx, sess):
     ctx.rule('C02.4', 'sample-id frames on the statistics path: the sample_id_offset is applied exactly once to each value and no compare mixes an api-relative id with a file id')
     ctx.rule('C02.9', 'the entries a request is answered from are those of the summary chunk it walks: after a nested read for an unaligned edge (which loads other chunks into the same buffer) the summary chunk is read again before its entries are used (shared with C10.28)')
     ctx.rule('C02.10', 'statistics describe the written samples also for fixed-point types: tracing the sample converter for every accepted type with a fixed-point position set, no converted value is rescaled (the samples read back are the plain integers, so a rescaled summary would not describe them)')
+    ctx.rule('C02.11', 'entries of a level above 1 are contiguous: a summary chunk holds a whole number of the lower level\'s reductions, i.e. the divisibility the definition alignment establishes survives to the values it stores (shared with C16.7) - otherwise the writer drops the remainder entries of every chunk while the reader assumes none are missing')
+    ctx.rule('C02.12', 'summaries stored in double are consumed in double: in the reader no value loaded from a 64-bit summary (an entry of jls_fsr_f64_summary_s, or an element behind a pointer to double) is converted to float - min, max and mean of 32-bit integer signals need more than 24 bits')
     ctx.rule('C02.5', 'shared: non-finite values are skipped at every level (C09.4); accumulator algebra of statistics.c - alias safety, empty operands, extremes, non-negative variance, no division by a zero count (C20.1-C20.5); the summary payload length covers every entry of either width (C05.11); the level-0 scratch is filled only up to its allocated length (C10.23)')
     columns_rule(ctx, P, 'C02.1')
     extremes_rule(ctx, P, 'C02.2')
@@ -271,6 +273,9 @@ def run(ctx, sess):
     relay(ctx, sess, _c20.run, {'C20.1': 'C02.5', 'C20.2': 'C02.5', 'C20.3': 'C02.5', 'C20.4': 'C02.5', 'C20.5': 'C02.5'}, minimum=10)
     relay(ctx, sess, _c05.run, {'C05.11': 'C02.5'}, minimum=1)
     relay(ctx, sess, _c10.run, {'C10.23': 'C02.5'}, minimum=2)
+    f64_consumed_rule(ctx, P, 'C02.12')
+    from . import c16 as _c16
+    relay(ctx, sess, _c16.run, {'C16.7': 'C02.11'}, minimum=1)
     relay(ctx, sess, _c10.run, {'C10.28': 'C02.9'}, only_functions=('fsr_statistics', 'jls_core_fsr_statistics', 'rd_stats_chunk'), minimum=1)
     from . import c15 as _c15
     relay(ctx, sess, _c15.run, {'C15.10': 'C02.5', 'C15.12': 'C02.5'}, minimum=1)
@@ -418,3 +423,32 @@ def converter_rule(ctx, P, rule):
     if unsupported:
         ctx.note('%s: types the converter refuses (no case): %s' % (rule, ['0x%x' % d_ for d_ in sorted(unsupported)]))
     ctx.floor('(type, count) pairs traced through the converter', n, 60)
+
+
+def f64_consumed_rule(ctx, P, rule):
+    n = 0
+    bad = []
+    for fn in P.fns_in('src/reader.c'):
+        loads = 0
+        for b in fn.blocks.values():
+            for ev in b.events:
+                e = getattr(ev, 'e', None)
+                if e is None:
+                    continue
+                for nd in walk(e):
+                    is_load = (nd.get('op') == 'member' and nd.get('rec') == 'jls_fsr_f64_summary_s' and nd.get('field') == 'data') or \
+                              (nd.get('op') == 'sub' and (strip_casts(nd['k'][0]).get('t') or '') == 'p:f64')
+                    if is_load:
+                        loads += 1
+                    if nd.get('op') == 'cast' and nd.get('t') == 'f32':
+                        inner = nd['k'][0]
+                        if any((m.get('op') == 'member' and m.get('rec') == 'jls_fsr_f64_summary_s' and m.get('field') == 'data') or
+                               (m.get('op') == 'sub' and (strip_casts(m['k'][0]).get('t') or '') == 'p:f64') for m in walk(inner)):
+                            bad.append((fn, ev, nd))
+        if loads:
+            n += 1
+            ctx.saw(fn, 1)
+    ctx.ob(rule, not bad, (bad[0][0] if bad else P.fn('fsr_statistics')).name, 'values of 64-bit summaries stay double', (bad[0][1] if bad else P.fn('fsr_statistics')).where(),
+           '%d reader functions load 64-bit summary values; none converts one to float' % n if not bad else
+           '%s converts a 64-bit summary value to float: the stored min / max / mean of a 32-bit integer signal is rounded to 24 bits before it is returned (2^31 - 1 comes back as 2^31)' % show(bad[0][2])[:70])
+    ctx.floor('reader functions that load 64-bit summary values', n, 2)
